@@ -178,6 +178,7 @@ func Run(a RunArgs) int {
 	var inconcl []string
 
 	if a.Replay != "" {
+		os.Setenv("VERIF_DIAG", "1")
 		cf := filepath.Join(a.Replay, "case.json")
 		out, prog, se := filepath.Join(tmp, "r.out"), filepath.Join(tmp, "r.prog"), filepath.Join(tmp, "r.err")
 		code, _ := spawn(workerArgs(a, 0, 1, 1, -1, cf, out, prog, 120), se)
